@@ -91,6 +91,8 @@ static bool holder_queue_check(const struct cmi_heap_tag *a,
     return ret;
 }
 
+static void record_sample(struct cmb_resourcepool *sp);
+
 /*
  * resourcepool_drop_holder - forcibly eject a holder process without resuming it.
  * Instantiates the cmi_holdable method.
@@ -115,6 +117,7 @@ static void resourcepool_drop_holder(struct cmi_holdable *rhp,
         rpp->in_use -= pi->amount;
         const bool ret = cmi_hashheap_cancel(hhp, key);
         cmb_assert_debug(ret == true);
+        record_sample(rpp);
         cmb_resourceguard_signal(&(rpp->guard));
     }
 }
